@@ -152,9 +152,19 @@ def build(sm: SourceModel, f: Func) -> SchemeModel:
         incs_positions = []
         notes = []
         defined_syms = []  # lhs terms printed so far
+        local_nodes: dict[str, ast.AST] = {}
+
+        def deref(node_):
+            seen_ = 0
+            while isinstance(node_, ast.Name) and node_.id in local_nodes and seen_ < 8:
+                node_ = local_nodes[node_.id]
+                seen_ += 1
+            return node_
+
         for st in p.effects:
             if isinstance(st, ast.Assign) and len(st.targets) == 1 and isinstance(st.targets[0], ast.Name):
                 ev.env[st.targets[0].id] = ev.ev(st.value)
+                local_nodes[st.targets[0].id] = st.value
                 continue
             if isinstance(st, ast.AugAssign) and isinstance(st.target, ast.Name) and st.target.id == counter:
                 if isinstance(st.op, ast.Add) and isinstance(st.value, ast.Constant) and st.value.value == 1:
@@ -168,13 +178,14 @@ def build(sm: SourceModel, f: Func) -> SchemeModel:
                 c = st.value
                 d = dotted(c.func) or ""
                 if result_list and d == f"{result_list}.append" and c.args:
-                    inner = c.args[0]
+                    inner = deref(c.args[0])
                     if isinstance(inner, ast.Call) and (dotted(inner.func) or "") == printer and len(inner.args) >= 2:
                         lhs_n, rhs_n = inner.args[0], inner.args[1]
                         lhs, rhs = ev.ev(lhs_n), ev.ev(rhs_n)
                         emissions.append((lhs, rhs, inner))
-                        if isinstance(lhs_n, ast.Subscript) and dotted(lhs_n.value) == values_name:
-                            stores.append((ev.ev(lhs_n.slice), rhs, inner, len(emissions) - 1))
+                        lhs_d = deref(lhs_n)
+                        if isinstance(lhs_d, ast.Subscript) and dotted(lhs_d.value) == values_name:
+                            stores.append((ev.ev(lhs_d.slice), rhs, inner, len(emissions) - 1))
                         continue
                     notes.append(f"appends something that is not printer(lhs, rhs): {norm(inner)[:60]}")
                 continue
